@@ -746,6 +746,17 @@ func cmdCheck(args []string) int {
 		ev.Coverage["bounded"] = bounded
 		ev.Coverage["known_findings"] = known
 	}
+	// thorough tier: the must-fail corpus of this property (seeded changes on scratch copies; each must raise a violation)
+	if *tier == "thorough" && os.Getenv("HVC_NO_SELFTEST") == "" && os.Getenv("HVC_REPO") == "" {
+		st, allCaught := runSeeds(map[string]bool{prop: true})
+		ev.Coverage["must_fail_corpus"] = st
+		if !allCaught {
+			fmt.Fprintf(os.Stderr, "broken check: a seeded change that breaks %s is not detected (vacuity guard, see evidence must_fail_corpus)\n", prop)
+			data, _ := json.MarshalIndent(ev, "", " ")
+			os.WriteFile(filepath.Join(outRoot(), "evidence", prop+".json"), data, 0o644)
+			return 2
+		}
+	}
 	os.MkdirAll(filepath.Join(outRoot(), "evidence"), 0o755)
 	data, _ := json.MarshalIndent(ev, "", " ")
 	os.WriteFile(filepath.Join(outRoot(), "evidence", prop+".json"), data, 0o644)
